@@ -423,6 +423,11 @@ Lemma session_round1_sites : forall q c t,
    TBytes (slice (N.to_nat 32 + N.to_nat 32) (N.to_nat 32) t)].
 Proof. intros. reflexivity. Qed.
 
+(* SoftSpoken extension receiver: the sigma mask block of x' is the 16 bytes it draws *)
+Lemma otext_sigma_site : forall q c t,
+  first_msg q (draws POtExtReceiver c 1) t = [TBytes (slice 0 (N.to_nat 16) t)].
+Proof. intros. reflexivity. Qed.
+
 (* ---- examples (non-vacuity) ------------------------------------------------------------------------ *)
 
 Definition ex_q : N := 101.
